@@ -99,6 +99,9 @@ def run(repo, run, tier):
     kick_mask_plumbing(repo, run)
     kick_mask_dataflow(repo, run)
     default_mask(repo, run)
+    mask_reaches_live_integrator(repo, run)
+    from .common import instance_tables_are_class_tables
+    instance_tables_are_class_tables(repo, run, "C10.10")
 
 
 def shear_shape(repo, run, r4, upd, stepfn, dcol, kcol):
@@ -544,3 +547,30 @@ def default_mask(repo, run):
                        "not a composition of shears (not symplectic, not reversible) for 2 or more degrees of freedom" % (n, sorted(on), sorted(want)),
                        text="default kick mask")
             break
+
+
+# ------------------------------------------------------------------------------------------------
+def mask_reaches_live_integrator(repo, run):
+    """'for all kick masks', however the mask is handed over: set_method(name, staggered_mask=mask) stores the mask on the system and then has to (re)build the integrator
+    with it on EVERY path -- also when the method named is the one already active.  An early return after the store leaves the live splitting integrator stepping with
+    its old (default) mask."""
+    import ast as _ast
+    from ..front import walk_no_nested, is_self_attr, src, dotted
+    from ..imodel import path_key
+    rid = run.rule("C10.9", "OdeSystem.set_method: after the kick mask is stored on the system no `return` precedes the call of initialise_integrator (must-pass-through: the "
+                            "integrator is rebuilt with the new mask on every path)", floor=1)
+    DSF = "desolver/differential_system.py"
+    fn = repo.get(DSF, "OdeSystem.set_method")
+    run.analysed_fn(DSF, fn)
+    stores = [st for st in walk_no_nested(fn) if isinstance(st, _ast.Assign) and any(is_self_attr(t, "staggered_mask") for t in st.targets)]
+    inits = [c for c in _ast.walk(fn) if isinstance(c, _ast.Call) and dotted(c.func) == "self.initialise_integrator"]
+    if not stores or not inits:
+        raise AnalysisError("set_method: the mask store or the integrator (re)construction was not found")
+    k0 = min(path_key(st, fn) for st in stores)
+    k1 = max(path_key(c, fn) for c in inits)
+    rets = [r for r in walk_no_nested(fn) if isinstance(r, _ast.Return) and k0 < path_key(r, fn) < k1]
+    run.judged(rid, "returns between the mask store and initialise_integrator: %d" % len(rets), ok=not rets)
+    for r in rets:
+        run.report("C10.9", DSF, r, "set_method can return after storing the kick mask on the system and before (re)building the integrator: the live splitting integrator keeps "
+                   "its previous mask (e.g. the default half/half one), so a mask handed over for the method that is already active is silently ignored and the step is no "
+                   "longer the composition of shears the user specified")
